@@ -7,7 +7,7 @@ Driver commands of property C13.
 → the state projection after set-up and after every label, joined by `;`.
 Labels: `tick`, `call.<t>.recv`, `call.<t>.close.<code>`, `call.<t>.send.<n>`, `call.<t>.ping`,
 `cancel.<t>`, `peer.text`, `peer.ping`, `peer.pong`, `peer.close.<code>`, `peer.bad`, `drop.<0|1>`,
-`pausew`, `resumew`.
+`pausew`, `resumew`, `adv.<ms>`.
 -/
 namespace Aio.Driver.C13
 open Aio Aio.Wire Aio.C13
@@ -30,6 +30,7 @@ def parseLabel (s : String) : Option Label :=
   | ["peer", "pong"] => some (.peer .pong)
   | ["peer", "close", c] => do pure (.peer (.close (← c.toNat?)))
   | ["peer", "bad"] => some (.peer .bad)
+  | ["adv", d] => do pure (.adv (← d.toNat?))
   | ["drop", "0"] => some (.drop false)
   | ["drop", "1"] => some (.drop true)
   | _ => none
